@@ -70,9 +70,9 @@ def showOpt : Option Rat → String
   | some q => showRat q
   | none => "nan"
 
-def doParse (T : Hand.Tables) (loc : List Char) (s : Option (List Char)) : String :=
+def doParse (v : Hand.Variant) (T : Hand.Tables) (loc : List Char) (s : Option (List Char)) : String :=
   let l0 : Hand.Locale := ⟨loc⟩
-  let o := Hand.compoundParser T l0 s
+  let o := Hand.compoundParser v T l0 s
   match o.result with
   | .ok cd =>
     let items := (cd.elements.zip (cd.nAtoms.zip cd.massFractions)).map fun (z, n, f) => s!" {z}:{showRat n}:{showOpt f}"
@@ -110,13 +110,6 @@ def specElements (T : Hand.Tables) : Spec.Elements :=
                          let w := T.weight.getD z 0
                          if w ≤ 0 then none else some w }
 
-def inAlphabet (c : Char) : Bool := c.isUpper || c.isLower || c.isDigit || c = '.' || c = '(' || c = ')'
-
-/-- parentheses balanced: depth never negative, zero at the end -/
-def balanced : List Char → Nat → Bool
-  | [], d => d == 0
-  | c :: r, d => if c = '(' then balanced r (d + 1) else if c = ')' then (d != 0 && balanced r (d - 1)) else balanced r d
-
 def hasJunk : Spec.Formula → Bool
   | .nil => false
   | .atom _ s r => (match s with | .junk _ => true | _ => false) || hasJunk r
@@ -138,8 +131,8 @@ where inner : Spec.Formula → Nat
 
 def doSpec (T : Hand.Tables) (s : List Char) : String :=
   let E := specElements T
-  if s.any (fun c => !inAlphabet c) then "expect reject outside-alphabet"
-  else if !balanced s 0 then "expect reject unbalanced"
+  if s.any (fun c => !Spec.inAlphabet c) then "expect reject outside-alphabet"
+  else if Spec.depthAfter s 0 != some 0 then "expect reject unbalanced"
   else match Spec.read s with
   | none => "expect none not-a-formula"
   | some f =>
@@ -152,14 +145,14 @@ def doSpec (T : Hand.Tables) (s : List Char) : String :=
       else if !(f.okB E) then "expect reject unknown-symbol-or-zero-subscript-or-empty-group"
       else s!"expect reject no-atomic-weight lead={levelsNoAtom f}"
 
-partial def loop (T : Hand.Tables) (h : IO.FS.Stream) (out : IO.FS.Stream) : IO Unit := do
+partial def loop (v : Hand.Variant) (T : Hand.Tables) (h : IO.FS.Stream) (out : IO.FS.Stream) : IO Unit := do
   let line ← h.getLine
   if line.isEmpty then return ()
   let t := (line.trimAscii.toString.splitOn " ")
   let ans : String :=
     match t with
-    | ["parse", loc, s] => doParse T (unesc loc.toList) (some (unesc s.toList))
-    | ["null"] => doParse T "C".toList none
+    | ["parse", loc, s] => doParse v T (unesc loc.toList) (some (unesc s.toList))
+    | ["null"] => doParse v T "C".toList none
     | ["add", wa, wb, a, b] => doAdd wa wb a b
     | ["z2s", z] =>
       match z.toInt? with
@@ -177,14 +170,19 @@ partial def loop (T : Hand.Tables) (h : IO.FS.Stream) (out : IO.FS.Stream) : IO 
     | [""] => ""
     | _ => "bad-op"
   if ans != "" then out.putStrLn ans
-  loop T h out
+  loop v T h out
 
 def main (argv : List String) : IO UInt32 := do
-  match argv with
-  | [tables] =>
+  let run (tables : String) (v : Hand.Variant) : IO UInt32 := do
     let T ← loadTables tables
     let out ← IO.getStdout
-    loop T (← IO.getStdin) out
+    loop v T (← IO.getStdin) out
     out.flush
     return 0
-  | _ => IO.eprintln "usage: parser-model tables.txt"; return 2
+  match argv with
+  | [tables] => run tables Hand.asIs
+  | [tables, flags] =>
+    -- three characters 0/1: localeFix weightFix leakFix (see Hand.Variant)
+    let b := fun (i : Nat) => flags.toList.getD i '0' == '1'
+    run tables ⟨b 0, b 1, b 2⟩
+  | _ => IO.eprintln "usage: parser-model tables.txt [variant flags, e.g. 000]"; return 2
